@@ -1,4 +1,4 @@
-import SudsModel.Xsd.Schema
+import SudsModel.Lemmas.Schema
 /-!
 C01 — what the marshalling rules write, for every schema environment, type and value tree.
 The model (`SudsModel/Xsd/Schema.lean`) is tied to `suds/mx/*`, `suds/bindings/*` by the request
@@ -55,13 +55,6 @@ theorem marshal_names (env : Env) : ∀ (f : Nat) (name : String) (ns : Option S
       | builtin n => simp [marshal] at h
       | array k => simp [marshal] at h
       | complex k => simp [marshal] at h; subst h; exact ⟨rfl, rfl⟩
-
-/-- What an object's member contributes to its parent element. -/
-def emit (env : Env) (f : Nat) (fields : List (String × Val)) (md : Member × Nat) : List Info :=
-  match vlookup md.1.name fields with
-  | none => []
-  | some x => if skipped md.1 x then [] else
-      marshal env f md.1.name (memberNs env md.1 md.2) md.1.type md.1.nillable x
 
 /-- **Children in schema order, qualified as the form rules demand.** An object is written as one
 element whose children are the contributions of the members of its *actual* type taken in
